@@ -330,8 +330,7 @@ pub fn set_global_config(network: &str, traces: bool, btc_url: &str) {
 static WORK_COUNTER: AtomicU64 = AtomicU64::new(0);
 
 pub fn work_root() -> PathBuf {
-    let root = std::env::var("VERIF_WORK").unwrap_or_else(|_| "/verif/.work".to_string());
-    PathBuf::from(root)
+    std::env::var("VERIF_WORK").map(PathBuf::from).unwrap_or_else(|_| crate::report::root().join(".work"))
 }
 
 /// A fresh directory under /verif/.work/<tag>-<pid>/<n>.
